@@ -26,8 +26,8 @@ Plan gen_life(uint64_t, const string &); void exec_life(const Plan &, RunOut *);
 static const Mode g_modes[] = {
   {"model", gen_model, exec_model},
   {"crash", gen_crash, exec_crash},
-#ifdef LSIM_ALL_MODES
   {"conc", gen_conc, exec_conc},
+#ifdef LSIM_ALL_MODES
   {"ioerr", gen_ioerr, exec_ioerr},
   {"corrupt", gen_corrupt, exec_corrupt},
   {"logfmt", gen_logfmt, exec_logfmt},
